@@ -8,6 +8,7 @@ CONSTANTS
   FD = FALSE
   MaxAge = 2
   QuietTicks = TRUE
+  JoinShortcut = FALSE
   BumpAdvancesVersion = TRUE
   NodeRank <- Rank
 INVARIANTS ConvergedMembers ConvergedIncarnations ConvergedExact
